@@ -18,6 +18,7 @@ from .values import SInt, SBool, SSeq, SStr, SEnum, SObj, SFlags, SDateTime, SAb
 
 HINTS = {}            # (class name, field name) -> sort
 MAX_ITEMS = 1         # variable-size vector items explored in E2 (bounded stand-in, reported)
+LIST_ITEMS = {'packet_id_array': 2}     # plain list fields explored with more items (order-sensitive layouts)
 MAX_DEPTH = 4
 
 
@@ -153,12 +154,12 @@ def make(P, sort, name, depth):
         return s
     if k == 'list':
         out = []
-        for i in range(MAX_ITEMS):
+        for i in range(LIST_ITEMS.get(name.split('_', 1)[-1], MAX_ITEMS)):
             if P.choose('%s has item %d' % (name, i)):
                 out.append(make(P, sort[1], '%s_%d' % (name, i), depth + 1))
             else:
                 break
-        note_bounded('list field %s explored with at most %d items' % (name, MAX_ITEMS))
+        note_bounded('list field %s explored with at most %d items' % (name, LIST_ITEMS.get(name.split('_', 1)[-1], MAX_ITEMS)))
         return out
     if k == 'vector':
         return make_vector_items(P, sort[1], name, depth)
